@@ -24,7 +24,8 @@
      correspondence run and the monitor only. *)
 From Coq Require Import ZArith List Bool.
 Require Import Verif.gen.Consts_ipclife.
-Require Import Verif.IpcLifeModel Verif.IpcLifeProofs Verif.IpcLifeProofs2 Verif.IpcLifeProofs3 Verif.IpcLifeProofs4.
+Require Import Verif.IpcLifeModel Verif.IpcLifeProofs Verif.IpcLifeProofs2 Verif.IpcLifeProofs3 Verif.IpcLifeProofs4
+               Verif.IpcLifeProofs5 Verif.IpcLifeProofs6 Verif.IpcLifeProofs7.
 Import ListNotations.
 Local Open Scope Z_scope.
 
@@ -113,3 +114,32 @@ Theorem C04_liveliness_partial : forall cb, cb_ok cb -> forall H J D c w,
   GI H J D w -> live (conns w c) -> safe (fun w' _ => GI H J D w') (liveliness true cb c w).
 Proof. exact liveliness_ok. Qed.
 Print Assumptions C04_liveliness_partial.
+
+(* ---------------------------------------------------------------------------------------------------------------
+   The closing induction (increment 1).  The callback interpreter satisfies the contract at EVERY nesting depth
+   (induction on the depth; the nested library calls made by a callback's actions are the recursive case) ... *)
+Theorem C04_callback_contract_all_depths : forall shm n, cb_ok (invoke shm true n).
+Proof. exact invoke_ok. Qed.
+Print Assumptions C04_callback_contract_all_depths.
+
+(* ... hence, for ALL histories (connects incl. refusals and clients that vanish during the handshake, requests, client
+   disconnects/deaths, main-loop turns, queued jobs, application actions outside and - through ALL behaviour tables -
+   inside every callback, to every nesting depth), on both transports: no error state about a connection is reachable
+   (UseAfterFree, RefUnderflow, OrderViolation = a callback out of the order accept created msg* closed+ destroyed,
+   DestroyedWhileHeld, TransportGone, OutOfFuel) and the invariant holds at the end.
+   Still let through by [safe]: errors about the SERVICE object. *)
+Theorem C04_lifecycle_all_histories_partial : forall shm depth ops,
+  safe (fun w _ => GI0 w) (run shm true depth ops world0).
+Proof. intros. apply run_ok. exact GI_world0. Qed.
+Print Assumptions C04_lifecycle_all_histories_partial.
+
+(* what the invariant says of every connection between operations: allocated <=> not destroyed; refcount = (1 while
+   connected) + application references + queued closed re-runs, at least 1; destroyed => freed, no application
+   reference, unregistered, off the list, no job queued *)
+Theorem C04_final_state_facts : forall w c, GI0 w ->
+  let x := conns w c in
+  (c_alloc x = true -> live x /\ c_rc x = init_of (c_st x) + c_uref x + cnt c (jobs w) /\ 1 <= c_rc x /\ c_st x <> ACTIVE) /\
+  (c_alloc x = false -> c_ph x = PNone \/ c_ph x = PDead) /\
+  (c_ph x = PDead -> c_alloc x = false /\ c_uref x = 0 /\ c_reg x = false /\ mem_id c (s_list w) = false /\ cnt c (jobs w) = 0).
+Proof. intros w c G. exact (CI_top_facts _ _ _ (proj1 G c)). Qed.
+Print Assumptions C04_final_state_facts.
